@@ -58,9 +58,9 @@ class ToolResult:
         m = re.search(r"ERROR: AddressSanitizer: ([\w-]+)", e)
         if m:
             kind = m.group(1)
-            if kind == "SEGV":
-                # null-deref vs wild
-                kind = "SEGV"
+            if kind == "attempting":          # "attempting double-free" / "attempting free on address which was not malloc()-ed"
+                m1 = re.search(r"ERROR: AddressSanitizer: attempting ([\w-]+)", e)
+                kind = "bad-free" if not m1 else ("double-free" if m1.group(1) == "double-free" else "bad-free")
         m2 = re.search(r"WARNING: ThreadSanitizer: ([\w ]+)", e)
         if m2:
             kind = "tsan:" + m2.group(1).strip()
